@@ -130,6 +130,12 @@ func (f *Formatter) formatInfixExpression(expr *ast.InfixExpression) *ChunkBuffe
 		if !f.conf.ExplicitStringConcat {
 			operator = ""
 		}
+		// The operator is needed in front of a prefix operator or a parenthesis:
+		// `"a" -1` is a subtraction and `"a" (b)` looks like a function call
+		switch expr.Right.(type) {
+		case *ast.PrefixExpression, *ast.GroupedExpression:
+			operator = expr.Operator
+		}
 	}
 
 	buf.Append(f.formatExpression(expr.Left))
